@@ -329,7 +329,11 @@ def make_app_classes():
             if pol.get('close_in_handler'):
                 # the application decides, while handling a request, to close the connection (e.g. a 'bye' request)
                 self.w.rec.log(self.ep, 'app_close')
-                await self.w.eps[self.ep].close()
+                try:
+                    await self.w.eps[self.ep].close()
+                finally:
+                    # (the handler runs inside the receiver task, which close() cancels: "returned" = control left close())
+                    self.w.rec.log(self.ep, 'app_close_returned')
             fut = self.w.loop.create_future()
             it = self.w.interaction(iid)
             it['resp_future'] = fut
@@ -1284,6 +1288,7 @@ class World:
     def app_close(self, ep):
         self.rec.log(ep, 'app_close')
         t = self.loop.create_task(self.eps[ep].close())
+        t.add_done_callback(lambda _t, ep=ep: self.rec.log(ep, 'app_close_returned'))
         self.loop.run_ready()
         return t
 
